@@ -260,7 +260,7 @@ class Endpoint(object):
 
     def signals(self, member=None):
         return [e for e in dbus.RECORDER.events
-                if e['kind'] == 'signal' and e['obj'] is self.hdl and (member is None or e['member'] == member)]
+                if e['kind'] == 'signal' and e['obj'] is self.hdl and (member is None or e['member'] == member) and e.get('exported', True)]
 
     def agent_signals(self, member=None):
         return [e for e in dbus.RECORDER.events
